@@ -46,15 +46,52 @@ def complement(n, idx):
     return [i for i in range(n) if i not in s]
 
 
+# Only this theorem may use the real-number axioms (it goes through Flocq, which also uses excluded middle); every other
+# theorem of props/C16.v must stay closed under the global context.  common.run_check applies one allow-list to the whole
+# file, so the per-theorem rule is enforced here by renaming such an axiom when it shows up anywhere else.
+REAL_THEOREMS = {"keeps_at_least_one_every_n"}
+REAL_OK = set(common.REALS_AXIOMS) | {"Classical_Prop.classic"}
+_parse_assumptions = common.parse_assumptions
+
+
+def _strict_parse_assumptions(output):
+    res = _parse_assumptions(output)
+    try:
+        names = common.theorem_names(open(common.os.path.join(common.build.COQ, "props", "C16.v")).read())
+    except OSError:
+        return res
+    for i, ax in enumerate(res):
+        if i < len(names) and names[i] not in REAL_THEOREMS:
+            res[i] = [("only-allowed-in-%s:%s" % (sorted(REAL_THEOREMS)[0], a)) if a in REAL_OK else a for a in ax]
+    return res
+
+
+common.parse_assumptions = _strict_parse_assumptions
+
+
+PINNED_TF_STMTS = [
+    "data_len = tf.cast(tf.shape(self.data.tensor)[0], dtype=tf.float32)",
+    "number_sample = tf.squeeze(tf.round(data_len * dropout_percent))",
+    "number_sample = tf.maximum(1.0, number_sample)",
+    "number_sample = tf.cast(number_sample, dtype=tf.int32)",
+    "idxs = tf.range(data_len - 1, dtype=tf.int32)",
+    "select_indexes = tf.sort(tf.random.shuffle(idxs)[:number_sample])",
+    "select_indexes = tf.cast(select_indexes, dtype=tf.int32)",
+    "return (self.select_frames(select_indexes), select_indexes)",
+]
+
+
 class C16(common.Prop):
     ID = "C16"
+    ALLOWED_AXIOMS = REAL_OK
     RUNNER = "c16"
     MODEL_FILES = ["base/F32.v", "model/C16_Frames.v", "model/C16_Run.v", "gen/Gen_C16.v"]
     RULE = ("bodies with 1..200 frames (1, 2, 3 and the cap boundary 99..101 over-weighted), P<=2, K<=3, D 2..3, on NumPy / "
             "PyTorch / TensorFlow; operations: select_frames (index lists with repeats, any order, empty; ~12% out of range or "
             "negative), slice_step (by 1..2n and beyond; ~10% zero / negative), frame_dropout_given_percent (fractions 0, -0, 1, "
             "k/n and its two neighbours, random, denormal, 0.99.., ~10% outside [0,1]), frame_dropout_uniform / _normal with the draw "
-            "replayed by seed, and the Pose-level wrappers (slice_step, frame_dropout_uniform/_normal); every result is compared "
+            "replayed by seed, and the Pose-level wrappers (slice_step, frame_dropout_uniform/_normal); thorough adds every fraction k/n "
+            "with its two float neighbours and every step for n = 1..12 on the three backends; every result is compared "
             "with the extracted model channel by channel, fps bit for bit; non-trivial = input inside the property's quantifier "
             "(in-range index list, by >= 1, fraction in [0,1]); distinct by content hash")
     TRUSTED = ["Coq 8.16.1 kernel (vm_compute for the finite cap sweep and the refuted witnesses)",
@@ -66,8 +103,19 @@ class C16(common.Prop):
                    "behave as modelled (sampled by the correspondence)",
                    "frame counts fit the float type exactly in the correspondence (n <= 200); theorems hold for every n"]
 
+    cap = None            # the cap literal of pose_body.py as the translator read it on this run (None: not recognised)
+    tf_is_pinned = False  # the TensorFlow dropout statements are exactly the pinned (pre-F10) ones
+
     def translate(self):
-        return translate_c16.gen()
+        self.cap, self.tf_is_pinned = None, False
+        try:
+            self.tf_is_pinned = translate_c16.stmts(translate_c16.method(
+                "tensorflow/pose_body.py", "TensorflowPoseBody", "frame_dropout_given_percent")) == PINNED_TF_STMTS
+        except Exception:
+            pass
+        out = translate_c16.gen()
+        self.cap = translate_c16.cap_and_stmts()[1]
+        return out
 
     def translate_outputs(self):
         return ["Gen_C16.v"]
@@ -364,7 +412,13 @@ class C16(common.Prop):
         if not inside:
             return None
         dropped = n - len(idx)
-        few_kept = len(idx) <= max(1, n // 50 + 1)
+        # "unless capped": the generic code never drops more than int(n * cap) frames, cap being the literal the translator
+        # read from the source on this run (a different cap value is a harmless change; no recognisable cap: no excuse);
+        # the TensorFlow code caps at n - 1
+        if be == "tf":
+            few_kept = len(idx) == 1
+        else:
+            few_kept = self.cap is not None and dropped > Fraction(self.cap) * n - 1
 
         def as_backend(x):   # the fraction as the backend's float type receives it
             return Fraction(float(np.float32(x))) if be == "tf" else Fraction(x)
@@ -394,7 +448,8 @@ class C16(common.Prop):
 
     def classify(self, case, failure):
         be, op = case["be"], case["op"]
-        if be == "tf" and op in ("drop", "pose_drop") and case.get("_pinned"):
+        if be == "tf" and op in ("drop", "pose_drop") and self.tf_is_pinned and case.get("_pinned") \
+                and failure.get("clause") in ("keeps-one", "zero-drops-nothing", "about-the-fraction"):
             return "tf-dropout-keeps-round-n-p-of-the-first-n-1-frames"      # F10: the pinned TensorFlow code
         return "%s-%s-%s" % (be, op, failure.get("clause", "oracle"))
 
@@ -409,9 +464,20 @@ class C16(common.Prop):
         return not case.get("malformed", False)
 
     def gen_cases(self, rng, tier):
-        total = 600 if tier == "quick" else 12000
+        total = 600 if tier == "quick" else 24000
         for _ in range(total):
             yield self.gen_one(rng)
+        if tier == "thorough":
+            # small scope, enumerated: every fraction k/n with its two neighbours and every step, n = 1..12, three backends
+            for be in ("np", "torch", "tf"):
+                for n in range(1, 13):
+                    base = {"be": be, "n": n, "shape": [1, 2, 2], "fps": b64(30.0), "mseed": n}
+                    for k in range(0, n + 1):
+                        for q in (k / n, float(np.nextafter(k / n, 2.0)), float(np.nextafter(k / n, -1.0))):
+                            if 0.0 <= q <= 1.0:
+                                yield dict(base, op="drop", kind="given", p=b64(q), seed=rng.randrange(2 ** 31), cls="enum-k/n")
+                    for by in range(1, n + 2):
+                        yield dict(base, op="step", by=by, seed=0, cls="enum-by")
 
     def gen_one(self, rng):
         be = rng.choice(["np", "torch", "tf"])
